@@ -82,6 +82,12 @@ class Ctx:
                     break
             if scope is None or not bad or self.pid in scope:
                 self.problems.append(('translator', out.strip()))
+        # character-boundary assertions of the string operations (C09)
+        rc5, out5, _ = sh([sys.executable, os.path.join(VERIF, 'tools', 'strsites.py'), REPO, os.path.join(COQ, 'gen')])
+        if self.pid == 'C09':
+            self.say('translator:', out5.strip())
+            if rc5 != 0:
+                self.problems.append(('translator', out5.strip()))
         # summing rules of the statistics (C10)
         rc4, out4, _ = sh([sys.executable, os.path.join(VERIF, 'tools', 'statsites.py'), REPO, os.path.join(COQ, 'gen')])
         if self.pid == 'C10':
